@@ -733,6 +733,70 @@ func runScalars(raw json.RawMessage, seed int64, rec *Rec) {
 			check("client client", cres.Msg, mk("cr", 3))
 		}
 		rec.Add(E("result", "same", same, "note", note))
+	case "spec_kinds":
+		// C12: the Spec of a streaming call -- procedure, stream type, which side -- as the client's interceptors, the
+		// handler's interceptors and user code see it
+		var cspec, hispec, uspec connect.Spec
+		proc := "/verif.v1.K/Method"
+		hic := connect.WithInterceptors(streamSpy{client: nil, handler: &hispec})
+		var h *connect.Handler
+		switch s.Used {
+		case "client":
+			h = connect.NewClientStreamHandler(proc, func(_ context.Context, cs *connect.ClientStream[BV]) (*connect.Response[BV], error) {
+				for cs.Receive() {
+				}
+				return connect.NewResponse(&BV{}), nil
+			}, hic)
+		case "server":
+			h = connect.NewServerStreamHandler(proc, func(_ context.Context, r *connect.Request[BV], _ *connect.ServerStream[BV]) error {
+				uspec = r.Spec()
+				return nil
+			}, hic)
+		default:
+			h = connect.NewBidiStreamHandler(proc, func(_ context.Context, bs *connect.BidiStream[BV, BV]) error {
+				for {
+					if _, err := bs.Receive(); err != nil {
+						return nil
+					}
+				}
+			}, hic)
+		}
+		client := connect.NewClient[BV, BV](&memTransport{h: h, major: 2}, "http://verif.test/api/"+proc[1:],
+			append(clientProtoOpts(s.Proto), connect.WithInterceptors(streamSpy{client: &cspec}))...)
+		ctx := context.Background()
+		var err error
+		switch s.Used {
+		case "client":
+			cs := client.CallClientStream(ctx)
+			_ = cs.Send(&BV{})
+			_, err = cs.CloseAndReceive()
+		case "server":
+			var ss *connect.ServerStreamForClient[BV]
+			ss, err = client.CallServerStream(ctx, connect.NewRequest(&BV{}))
+			if err == nil {
+				for ss.Receive() {
+				}
+				err = ss.Err()
+				_ = ss.Close()
+			}
+		default:
+			bs := client.CallBidiStream(ctx)
+			_ = bs.Send(&BV{})
+			_ = bs.CloseRequest()
+			for {
+				if _, rerr := bs.Receive(); rerr != nil {
+					break
+				}
+			}
+			_ = bs.CloseResponse()
+		}
+		if s.Used != "server" {
+			uspec = hispec // (this version's ClientStream / BidiStream do not expose the Spec to user code)
+		}
+		rec.Add(E("result", "ok", err == nil,
+			"cproc", cspec.Procedure, "cisclient", cspec.IsClient, "cstype", int(cspec.StreamType),
+			"hproc", hispec.Procedure, "hisclient", hispec.IsClient, "hstype", int(hispec.StreamType),
+			"uproc", uspec.Procedure, "uisclient", uspec.IsClient, "ustype", int(uspec.StreamType)))
 	case "errmeta_limit":
 		// a handler fails with metadata and a long message; the client's read limit is smaller than the error payload:
 		// whatever code the client reports, the handler's metadata is in the error (C11 "on failure at least in the
@@ -936,4 +1000,25 @@ type slowBody struct {
 func (b *slowBody) Read(p []byte) (int, error) {
 	b.once.Do(func() { time.Sleep(b.wait) })
 	return b.ReadCloser.Read(p)
+}
+
+// streamSpy records the Spec of a streaming call on the side it is installed on.
+type streamSpy struct{ client, handler *connect.Spec }
+
+func (s streamSpy) WrapUnary(next connect.UnaryFunc) connect.UnaryFunc { return next }
+func (s streamSpy) WrapStreamingClient(next connect.StreamingClientFunc) connect.StreamingClientFunc {
+	return func(ctx context.Context, spec connect.Spec) connect.StreamingClientConn {
+		if s.client != nil {
+			*s.client = spec
+		}
+		return next(ctx, spec)
+	}
+}
+func (s streamSpy) WrapStreamingHandler(next connect.StreamingHandlerFunc) connect.StreamingHandlerFunc {
+	return func(ctx context.Context, conn connect.StreamingHandlerConn) error {
+		if s.handler != nil {
+			*s.handler = conn.Spec()
+		}
+		return next(ctx, conn)
+	}
 }
